@@ -301,8 +301,25 @@ def e2e (args : List String) : String × String :=
     | _, _ => ("no-observation", "no-observation")
   | none => ("bad-args", "bad-args")
 
+/-- `SPUB <subs> <pubs>`: `Server.Publish` through Joe — a subscriber is sent a message exactly when its topics and the
+publication's have a name in common, the publication's being the default topic `""` when none are given (C03 through
+the server's own entry point). Model and specification columns are the same list computation. -/
+def spub (args : List String) : String × String :=
+  match args.filter (fun a => !a.startsWith "GO=") with
+  | [subs, pubs] =>
+    let topicsOf (s : String) : List Bytes := if s == "-" then [[]] else unhexList s
+    let ps := (pubs.splitOn ";").map topicsOf
+    let one (s : String) : String :=
+      let st := unhexList s
+      let got := (List.range ps.length).filter fun j => st.any fun a => ((ps[j]?).getD []).any fun b => a == b
+      if got.isEmpty then "-" else ".".intercalate (got.map toString)
+    let r := ";".intercalate ((subs.splitOn ";").map one)
+    (r, r)
+  | _ => ("bad-args", "bad-args")
+
 def handle (op : String) (args : List String) : Option (String × String) :=
   match op with
+  | "SPUB" => some (spub args)
   | "SESS" => some (sess args)
   | "SERVE" => some (serve args)
   | "E2E" => some (e2e args)
